@@ -93,3 +93,55 @@ def pp_cutoff_scenario(seed):
         pipes.append({"prio": 3, "ops": [gen_e.simple_op(tps, 4, fixed=small)]})
         arrivals[rng.randint(0, 5)].append(5)
     return {"layer": "S", "algo": "priority-pool", "cfg": cfg, "pipes": pipes, "steps": [], "arrivals": arrivals}
+
+
+def naive_late_root_fails_scenario(seed, algo="naive"):
+    """naive / template, single-operator containers, two pools: a pipeline with operator (iteration) order [a (long root), r (short root),
+    b (child of a), c (child of r, needs more than a whole pool)]; c is OOM-killed while a is still running, and other short pipelines keep arriving,
+    so that the round that sees the failure gives the freed pool to somebody else; when a completes, b - which precedes the failed c in operator
+    order - is ready and PENDING.  A pipeline with a failed operator must not be assigned again."""
+    rng = random.Random(seed)
+    tps = rng.choice([1, 2, 4])
+    ram = rng.choice([8, 16, 32])
+    cfg = {"tps": tps, "multi": False, "over": False, "npools": 2, "cpus": rng.choice([2, 4, 8]), "ram": fstr(ram)}
+    small = F(1, 64)
+    da = rng.randint(6, 14)
+    pipes = [{"prio": 3, "ops": [
+        gen_e.simple_op(tps, da, fixed=small),                                             # a: long root
+        gen_e.simple_op(tps, rng.randint(1, 2), fixed=small),                              # r: short root
+        gen_e.simple_op(tps, rng.randint(1, 3), fixed=small, parents=[0]),                  # b: child of a
+        gen_e.simple_op(tps, rng.randint(1, 2), fixed=F(ram) + 1, parents=[1]),             # c: child of r, OOM in its first tick
+    ]}]
+    nticks = 60
+    arrivals = [[] for _ in range(nticks)]
+    arrivals[0] = [0]
+    # a two-operator chain arriving next, and a few single-operator pipelines arriving while a runs: they trigger rounds and compete for the free pool
+    pipes.append({"prio": 3, "ops": [gen_e.simple_op(tps, rng.randint(1, 2), fixed=small), gen_e.simple_op(tps, rng.randint(1, 2), fixed=small, parents=[0])]})
+    arrivals[1].append(1)
+    for k in range(rng.randint(1, 4)):
+        pipes.append({"prio": 3, "ops": [gen_e.simple_op(tps, rng.randint(1, 3), fixed=small)]})
+        arrivals[rng.randint(2, da + 4)].append(len(pipes) - 1)
+    return {"layer": "S", "algo": algo, "cfg": cfg, "pipes": pipes, "steps": [], "arrivals": arrivals}
+
+
+def preempt_lockstep_scenario(seed):
+    """priority, one or two pools: identical batch pipelines arrive together, so their containers reach their operator boundaries in the same tick;
+    two or more query pipelines then arrive on the full pool(s): several containers of one pool are suspended in the same round, with write-outs of equal
+    length that end in the same tick"""
+    rng = random.Random(seed)
+    tps = rng.choice([1, 2, 4, 8])
+    ram = rng.choice([20, 40, 80])
+    cfg = {"tps": tps, "multi": True, "over": False, "npools": rng.choice([1, 1, 2]), "cpus": rng.choice([10, 20]), "ram": fstr(ram)}
+    d = rng.randint(1, 3)
+    nops = rng.randint(3, 5)
+    nb = 10 * cfg["npools"]              # each first container gets a tenth of its pool: ten of them fill it
+    pipes = [{"prio": 3, "ops": [gen_e.simple_op(tps, d, fixed=F(1, 64), parents=[i - 1] if i else []) for i in range(nops)]} for _ in range(nb)]
+    nq = rng.randint(2, 4)
+    for _ in range(nq):
+        pipes.append({"prio": 1, "ops": [gen_e.simple_op(tps, rng.randint(1, 3), fixed=F(1, 64))]})
+    nticks = 60
+    arrivals = [[] for _ in range(nticks)]
+    arrivals[0] = list(range(nb))
+    ta = rng.randint(1, d * 2)
+    arrivals[ta] = [nb + k for k in range(nq)]
+    return {"layer": "S", "algo": "priority", "cfg": cfg, "pipes": pipes, "steps": [], "arrivals": arrivals}
